@@ -10,4 +10,4 @@ Separate Extraction
   Str.tab4 Str.split_lines Str.concat_lines Str.clean_with
   Preserve.kof Preserve.is_tag Preserve.collect Preserve.emplace Preserve.preserve1 Preserve.regen1
   Preserve.regen Preserve.file_sync Preserve.wf_fresh_file Preserve.read_lines Preserve.join
-  Preserve.parse_items Preserve.wfb.
+  Preserve.parse_items Preserve.wfb Preserve.utf8_valid Preserve.regen_dir.
